@@ -82,6 +82,34 @@ def worlds(tier):
         for mi, m in enumerate(mats):
             for dname, reads in read_designs(p, k, T)[:2]:
                 yield mk(seed, p, k, m, dname, reads, dict(block_cut_sensitivity=4, tag="PS"), extra=False, multi=True)
+    # reads that contradict the genotype at a multi-allelic site: one haplotype's reads carry ALT 2 where the
+    # VCF genotype only lists alleles 0 and 1 (the output must still list exactly the input alleles)
+    for p, k in [(3, 3), (4, 3)] + ([(4, 4)] if T else []):
+        mats = [m for m in hap_matrices(p, k, (0, 1, 2)) if sum(1 for r in m for x in r if x == 2) == 1]
+        mats = mats[:: max(1, len(mats) // (160 if T else 50))]
+        for m in mats:
+            for dname, reads in read_designs(p, k, T)[:2]:
+                for B in (0, 4):
+                    inst = mk(seed, p, k, m, dname, reads, dict(block_cut_sensitivity=B, tag="PS"), extra=False, multi=True)
+                    inst["world"]["gt_override_2_as_1"] = True
+                    yield inst
+    # two samples whose heterozygous sites differ (a variant heterozygous in one sample only, at the start of a block)
+    for p, k in [(3, 4), (4, 4)]:
+        mats = list(hap_matrices(p, k))
+        mats = mats[:: max(1, len(mats) // (120 if T else 40))]
+        for mi, m in enumerate(mats):
+            inst = mk(seed, p, k, m, "gap", [r for n_, r in read_designs(p, k, T) if n_ == "gap"][0], dict(block_cut_sensitivity=4, tag="PS"))
+            w = inst["world"]
+            w["samples"] = ["S1", "S2"]
+            e = w["haps"]["S1"]["chrA"]
+            s2 = [list(x) for x in e]
+            s1 = [list(x) for x in e]
+            s2[0] = [1] * p  # S2 homozygous at the first variant of block 1
+            s1[2] = [1] * p  # S1 homozygous at the first variant of block 2
+            w["haps"] = {"S1": {"chrA": s1}, "S2": {"chrA": s2}}
+            w["reads"] = [dict(r, sample=sn) for sn in ("S1", "S2") for r in w["reads"]]
+            w["two_samples"] = True
+            yield inst
     # pre-phasing and distrust (pass-through clauses only under distrust)
     for p, k in [(3, 4), (4, 3)]:
         mats = list(hap_matrices(p, k))[:: 40 if not T else 10]
@@ -124,6 +152,15 @@ def mk(seed, p, k, m, dname, reads, opts, extra=False, multi=False, prephase=Fal
 def materialize(world, d):
     """pw.materialize handles any ploidy and a second ALT allele; pre-phasing is added by a text edit"""
     paths = pw.materialize(world, d)
+    if world.get("gt_override_2_as_1"):
+        parsed = synth.parse_vcf(paths["vcf"])
+        lines = list(parsed["header"]) + ["\t".join(["#CHROM", "POS", "ID", "REF", "ALT", "QUAL", "FILTER", "INFO", "FORMAT"] + parsed["samples"])]
+        for rec in parsed["records"]:
+            t = rec["line"].split("\t")
+            t[9] = "/".join(sorted(("1" if a == "2" else a) for a in t[9].split("/")))
+            lines.append("\t".join(t))
+        with open(paths["vcf"], "w") as f:
+            f.write("\n".join(lines) + "\n")
     if not world["prephase"]:
         return paths
     parsed = synth.parse_vcf(paths["vcf"])
@@ -178,38 +215,49 @@ def judge(inst):
     distrust = opts.get("distrust_genotypes", False)
     if len(inp["records"]) != len(res["records"]):
         return [V("record-count", f"{len(inp['records'])} in, {len(res['records'])} out")], False
-    phased = {}
+    nphased_total = 0
     for ri, (a, b) in enumerate(zip(inp["records"], res["records"])):
         for key in ("chrom", "pos", "id", "ref", "alt", "filter", "info"):
             if a[key] != b[key]:
                 viols.append(V("passthrough", f"record {a['pos']}: {key} {a[key]} -> {b[key]}"))
-        gi, _ = synth.gt_parse(a["calls"][0].get("GT"))
-        go, po = synth.gt_parse(b["calls"][0].get("GT"))
-        ph = synth.decode_phase(b["calls"][0])
-        was = synth.decode_phase(a["calls"][0])
-        if not distrust:
-            if (gi is None) != (go is None) or (gi is not None and sorted(map(str, gi)) != sorted(map(str, go))):
-                viols.append(V("genotype", f"record {a['pos']}: GT {a['calls'][0].get('GT')} -> {b['calls'][0].get('GT')}: alleles / multiplicities differ"))
-        if ph is not None:
-            if go is None or None in go or len(set(go)) < 2:
-                viols.append(V("phased-homozygous", f"record {a['pos']}: {b['calls'][0]} is phased but not heterozygous"))
-            if ph[0] in ("HP-malformed",):
-                viols.append(V("malformed", f"record {a['pos']}: {b['calls'][0]}"))
-            else:
-                phased[ri] = ph[0]
-    # block structure over the read-covered heterozygous variants
-    if not distrust:
+    pos_of = {i: inp["records"][i]["pos"] for i in range(len(inp["records"]))}
+    for si, sname in enumerate(inp["samples"]):
+        phased = {}
+        for ri, (a, b) in enumerate(zip(inp["records"], res["records"])):
+            gi, _ = synth.gt_parse(a["calls"][si].get("GT"))
+            go, po = synth.gt_parse(b["calls"][si].get("GT"))
+            ph = synth.decode_phase(b["calls"][si])
+            if not distrust:
+                if (gi is None) != (go is None) or (gi is not None and sorted(map(str, gi)) != sorted(map(str, go))):
+                    viols.append(V("genotype", f"{sname} record {a['pos']}: GT {a['calls'][si].get('GT')} -> {b['calls'][si].get('GT')}: alleles / multiplicities differ"))
+            if ph is not None:
+                if go is None or None in go or len(set(go)) < 2:
+                    viols.append(V("phased-homozygous", f"{sname} record {a['pos']}: {b['calls'][si]} is phased but not heterozygous"))
+                if ph[0] in ("HP-malformed",):
+                    viols.append(V("malformed", f"{sname} record {a['pos']}: {b['calls'][si]}"))
+                else:
+                    phased[ri] = ph[0]
+        nphased_total += len(phased)
+        # block structure over the read-covered heterozygous variants of this sample
+        if distrust:
+            continue
+        entries = world["haps"][sname]["chrA"]
+        het = {i for i, e in enumerate(entries) if e != "miss" and len(set(e)) > 1}
+        if world.get("gt_override_2_as_1"):
+            # heterozygosity as stated by the (overridden) VCF genotype
+            het = {i for i, e in enumerate(entries) if e != "miss" and len({(1 if x == 2 else x) for x in e}) > 1}
         covered = set()
         for r in world["reads"]:
-            a, b = r["segs"][0][0], r["segs"][0][1]
-            covered.update(i for i in world["het_index"] if a <= i <= b)
+            if r["sample"] != sname:
+                continue
+            a_, b_ = r["segs"][0][0], r["segs"][0][1]
+            covered.update(i for i in het if a_ <= i <= b_)
         Vlist = sorted(covered)
-        pos_of = {i: inp["records"][i]["pos"] for i in range(len(inp["records"]))}
         Vpos = [pos_of[i] for i in Vlist]
         sets = {}
         for ri, name in phased.items():
             if ri not in covered:
-                viols.append(V("phased-uncovered", f"record {pos_of[ri]} is phased (set {name}) but no kept read covers it"))
+                viols.append(V("phased-uncovered", f"{sname} record {pos_of[ri]} is phased (set {name}) but no kept read covers it"))
                 continue
             sets.setdefault(name, []).append(Vlist.index(ri))
         prev_end = -1
@@ -217,20 +265,20 @@ def judge(inst):
         for name in sorted(sets, key=lambda n: min(sets[n])):
             idx = sorted(sets[name])
             if name not in Vpos:
-                viols.append(V("name", f"phase set {name} is not named after a read-covered heterozygous variant ({Vpos})"))
+                viols.append(V("name", f"{sname}: phase set {name} is not named after a read-covered heterozygous variant of this sample ({Vpos})"))
                 continue
             ni = Vpos.index(name)
             if ni > idx[0]:
-                viols.append(V("name", f"phase set {name} is named after a variant behind its first member {Vpos[idx[0]]}"))
+                viols.append(V("name", f"{sname}: phase set {name} is named after a variant behind its first member {Vpos[idx[0]]}"))
             if ni <= prev_end:
-                viols.append(V("name", f"phase set {name} is named after a variant inside the preceding set (which reaches {Vpos[prev_end]})"))
+                viols.append(V("name", f"{sname}: phase set {name} is named after a variant inside the preceding set (which reaches {Vpos[prev_end]})"))
             if idx[0] <= prev_end:
-                viols.append(V("overlap", f"phase sets {prev_name} and {name} are not disjoint stretches: {sets}"))
+                viols.append(V("overlap", f"{sname}: phase sets {prev_name} and {name} are not disjoint stretches: {sets}"))
             if prev_name is not None and name < prev_name:
-                viols.append(V("order", f"phase sets are not ordered by name along the chromosome: {prev_name} before {name}"))
+                viols.append(V("order", f"{sname}: phase sets are not ordered by name along the chromosome: {prev_name} before {name}"))
             prev_end = max(prev_end, idx[-1])
             prev_name = name
-    return viols[:5], len(phased) >= 2
+    return viols[:5], nphased_total >= 2
 
 
 def run_one(inst):
